@@ -231,6 +231,45 @@ def loader_facts(fn: ast.FunctionDef | None) -> dict:
 	return f
 
 
+def cli_facts(repo: Path) -> dict:
+	out = {'dist': False, 'create': False, 'query': False, 'query_parse': False}
+
+	def fn_of(path, name):
+		try:
+			tree = ast.parse((repo / 'src' / 'gambit' / path).read_text())
+		except (SyntaxError, OSError):
+			return None
+		return next((st for st in ast.walk(tree) if isinstance(st, ast.FunctionDef) and st.name == name), None)
+
+	def uses_kspec(fn, stop_prefix):
+		"""after the first top-level statement starting with stop_prefix: no assignment to kspec, >= 1 calc_file_signatures call, each with kspec first"""
+		if fn is None: return False
+		texts = [ast.unparse(st) for st in fn.body]
+		idx = [i for i, t in enumerate(texts) if t.startswith(stop_prefix)]
+		if not idx: return False
+		rest = fn.body[idx[0]:]
+		calls = [c for st in rest for c in ast.walk(st) if isinstance(c, ast.Call) and ast.unparse(c.func) == 'calc_file_signatures']
+		stores = [x for st in rest for x in ast.walk(st) if isinstance(x, ast.Name) and x.id == 'kspec' and isinstance(x.ctx, ast.Store)]
+		return bool(calls) and not stores and all(c.args and isinstance(c.args[0], ast.Name) and c.args[0].id == 'kspec' for c in calls)
+	out['dist'] = uses_kspec(fn_of('cli/dist.py', 'dist_cmd'), "prog = 'click' if progress else None")
+	out['create'] = uses_kspec(fn_of('cli/signatures.py', 'create'), 'if meta_file is not None')
+	q = fn_of('cli/query.py', 'query_cmd')
+	if q is not None:
+		blk = next((st for st in q.body if isinstance(st, ast.If) and ast.unparse(st.test) == 'sigfile'), None)
+		if blk is not None and len(blk.body) >= 2:
+			chk = blk.body[1]
+			ok = (ast.unparse(blk.body[0]) == 'sigs = load_signatures(sigfile)' and isinstance(chk, ast.If)
+			      and ast.unparse(chk.test) == 'sigs.kmerspec != db.signatures.kmerspec' and not chk.orelse
+			      and isinstance(chk.body[-1], ast.Raise) and ast.unparse(chk.body[-1].exc.func) == 'click.ClickException')
+			before = [c for st in blk.body[:2] for c in ast.walk(st) if isinstance(c, ast.Call) and ast.unparse(c.func) in ('query', 'query_parse')]
+			out['query'] = ok and not before
+	qp = fn_of('query.py', 'query_parse')
+	if qp is not None:
+		calls = [c for c in ast.walk(qp) if isinstance(c, ast.Call) and ast.unparse(c.func) == 'calc_file_signatures']
+		out['query_parse'] = len(calls) == 1 and bool(calls[0].args) and ast.unparse(calls[0].args[0]) == 'db.signatures.kmerspec'
+	return out
+
+
 def _body(fn):
 	"""statements of a function without its doc-string"""
 	b = list(fn.body)
@@ -353,6 +392,21 @@ def regenerate(repo: Path, out_dir: Path) -> dict:
 		sp.write_text(stext)
 	report['modules']['PySession'] = hashlib.sha1(stext.encode()).hexdigest()[:12]
 	report['functions'].append('db/sqla.py (structural facts)')
+	# --- src/gambit/cli/{dist,signatures,query}.py: where the reconciled parameters go -----------------------------------------
+	cf = cli_facts(repo)
+	ftext = ('/-\nGENERATED by harness/pytrace.py from src/gambit/cli/dist.py, signatures.py, query.py — do not edit.\n'
+	         'Regenerated at the start of every check; `GambitV.Tie.PyCliFacts` proves them.\n-/\nnamespace GambitV.Gen\n\n'
+	         '/-- `gambit dist`: after the fragment that settles `kspec` the name is not assigned again, and every `calc_file_signatures` call computes with it -/\n'
+	         f'def pyDistUsesKspec : Bool := {b(cf["dist"])}\n'
+	         '/-- `gambit signatures create`: the same -/\n' f'def pyCreateUsesKspec : Bool := {b(cf["create"])}\n'
+	         '/-- `gambit query -s`: the comparison of the file\'s parameters with the database\'s, raising `ClickException`, comes before the query is run, '
+	         'and genome files are parsed with the database\'s parameters (`query_parse` uses `db.signatures.kmerspec`) -/\n'
+	         f'def pyQuerySigChecked : Bool := {b(cf["query"])}\n' f'def pyQueryFilesUseDb : Bool := {b(cf["query_parse"])}\n\nend GambitV.Gen\n')
+	fp = out_dir / 'PyCliFacts.lean'
+	if not fp.exists() or fp.read_text() != ftext:
+		fp.write_text(ftext)
+	report['modules']['PyCliFacts'] = hashlib.sha1(ftext.encode()).hexdigest()[:12]
+	report['functions'].append('cli/dist.py, cli/signatures.py, cli/query.py (where the parameters go)')
 	# --- src/gambit/results.py: the column table of the CSV exporter -----------------------------------------------------------
 	cols = None
 	try:
